@@ -81,6 +81,7 @@ Definition eval_core (tabs : list frame) (js : list jspec) (wh : list expr) (sel
 (** ** the implementation's state *)
 Record st := mkSt {
   s_tabs : list frame;
+  s_bases : list nat;            (* per table: which base DataFrame it derives from (only PySpark's semantics looks at it) *)
   s_joins : list jspec;
   s_ctes : list cmeta;
   s_first_right : bool;          (* expression.args["joins"][0].args.get("side") == "right" *)
@@ -88,7 +89,8 @@ Record st := mkSt {
   s_where : list expr }.
 
 Definition init_sel (cs : list string) : list (expr * string) := map (fun n => (ECol (qn 0 n), n)) cs.
-Definition init_st (T : frame) (ctes : list cmeta) : st := mkSt [T] [] ctes false (init_sel (cols T)) [].
+Definition init_st (T : frame) (base : nat) (ctes : list cmeta) : st :=
+  mkSt [T] [base] [] ctes false (init_sel (cols T)) [].
 
 Definition eval_st (s : st) : option frame := eval_core (s_tabs s) (s_joins s) (s_where s) (s_sel s).
 
@@ -197,7 +199,7 @@ Definition first_tab_with (tcs : list (nat * list string)) (n : string) : option
 
 Definition key_eq (j : nat) (p : nat * string) : expr := EBin Eq (ECol (qn (fst p) (snd p))) (ECol (qn j (snd p))).
 
-Definition m_join (c : howcfg) (s : st) (R : frame) (octes : list cmeta) (on : onform) (how : string)
+Definition m_join (c : howcfg) (s : st) (R : frame) (rbase : nat) (octes : list cmeta) (on : onform) (how : string)
   (same_branch : bool) : option st :=
   let f := impl_flags c (match on with OnNone => true | _ => false end) how in
   match f_kind f with
@@ -211,7 +213,7 @@ Definition m_join (c : howcfg) (s : st) (R : frame) (octes : list cmeta) (on : o
       let self_names := map snd (s_sel s) in
       let names := if f_left_only f then self_names else self_names ++ cols R in
       let finish (cond : option expr) (items : list item) :=
-        Some (mkSt tabs' (s_joins s ++ [(k, cond)]) ctes' fr'
+        Some (mkSt tabs' (s_bases s ++ [rbase]) (s_joins s ++ [(k, cond)]) ctes' fr'
                    (resolve_items (order_of fr' tabs') [] items) (s_where s)) in
       if f_cross f then finish None (map IName names)
       else match on with
@@ -238,7 +240,7 @@ Definition m_where (s : st) (e : uexpr) : option st :=
   let n := List.length (s_tabs s) in
   let has_joins := negb (Nat.eqb n 1) in
   match resolve_uexpr (norm_after_ref (s_ctes s) has_joins n (order_of (s_first_right s) (s_tabs s))) e with
-  | Some e' => Some (mkSt (s_tabs s) (s_joins s) (s_ctes s) (s_first_right s) (s_sel s) (s_where s ++ [e']))
+  | Some e' => Some (mkSt (s_tabs s) (s_bases s) (s_joins s) (s_ctes s) (s_first_right s) (s_sel s) (s_where s ++ [e']))
   | None => None
   end.
 
@@ -251,62 +253,94 @@ Definition m_select (s : st) (items : list (uexpr * string)) : option st :=
                            | e => option_map (fun e' => IExpr e' (snd it))
                                              (resolve_uexpr (norm_after_ref (s_ctes s) has_joins n tcs) e)
                            end) items with
-  | Some its => Some (mkSt (s_tabs s) (s_joins s) (s_ctes s) (s_first_right s) (resolve_items tcs [] its) (s_where s))
+  | Some its => Some (mkSt (s_tabs s) (s_bases s) (s_joins s) (s_ctes s) (s_first_right s) (resolve_items tcs [] its) (s_where s))
   | None => None
   end.
 
 (** ** PySpark reference semantics of the same programs.  Columns are attributes: a reference through a DataFrame
-    or an alias means the column of that DataFrame, a bare name must be unique among the current output columns. *)
+    or an alias means the column of that DataFrame -- it must still be among the current output attributes (a USING join
+    drops the other side's key, a semi/anti join the whole right side, a full outer USING join replaces both keys by their
+    COALESCE), and, for a reference through a DataFrame, no other table of the chain may derive from the same base DataFrame
+    and carry the same column (Spark reports an ambiguous self-join; conservative).  A bare name must be unique among the
+    current output columns.  A USING join takes, on each side, the FIRST column of that name and drops only the joined pair. *)
 Record sp := mkSp {
   p_tabs : list frame;
+  p_bases : list nat;
   p_joins : list jspec;
   p_out : list (expr * string);
   p_where : list expr }.
 
-Definition init_sp (T : frame) : sp := mkSp [T] [] (init_sel (cols T)) [].
+Definition init_sp (T : frame) (base : nat) : sp := mkSp [T] [base] [] (init_sel (cols T)) [].
 Definition eval_sp (p : sp) : option frame := eval_core (p_tabs p) (p_joins p) (p_where p) (p_out p).
 
 Definition named (n : string) (out : list (expr * string)) : list (expr * string) :=
   filter (fun it => String.eqb (snd it) n) out.
 
-Definition sp_ref (out : list (expr * string)) (r : ref) : rres :=
+Fixpoint remove_first (n : string) (out : list (expr * string)) : list (expr * string) :=
+  match out with
+  | [] => []
+  | it :: r => if String.eqb (snd it) n then r else it :: remove_first n r
+  end.
+Definition drop_keys (ks : list string) (out : list (expr * string)) : list (expr * string) :=
+  fold_left (fun o k => remove_first k o) ks out.
+
+Definition in_out (out : list (expr * string)) (t : nat) (n : string) : bool :=
+  existsb (fun it : expr * string => expr_eqb (fst it) (ECol (qn t n))) out.
+
+(** another table of the chain derives from the same base DataFrame and has a column of that name *)
+Definition self_join_ambiguous (tabs : list frame) (bases : list nat) (t : nat) (n : string) : bool :=
+  existsb (fun t' => negb (Nat.eqb t' t)
+                     && Nat.eqb (nth t' bases O) (nth t bases O)
+                     && match nth_error tabs t' with Some T => mem n (cols T) | None => false end)
+          (seq 0 (List.length tabs)).
+
+Definition ref_valid (tabs : list frame) (bases : list nat) (out : list (expr * string)) (r : ref) : bool :=
   match r with
-  | RDf t _ _ n | RAlias t _ n => RQ t n
-  | RName n => RBare n
+  | RDf t _ _ n => in_out out t n && negb (self_join_ambiguous tabs bases t n)
+  | RAlias t _ n => in_out out t n
+  | RName n => match named n out with [_] => true | _ => false end
   end.
 
-Fixpoint sp_uexpr (out : list (expr * string)) (e : uexpr) : option expr :=
+Fixpoint sp_uexpr (valid : ref -> bool) (out : list (expr * string)) (e : uexpr) : option expr :=
   match e with
-  | UCol (RName n) => match named n out with [it] => Some (fst it) | _ => None end   (* missing or ambiguous *)
-  | UCol (RDf t _ _ n) | UCol (RAlias t _ n) => Some (ECol (qn t n))
+  | UCol r =>
+      if valid r then
+        match r with
+        | RName n => match named n out with [it] => Some (fst it) | _ => None end   (* missing or ambiguous *)
+        | RDf t _ _ n | RAlias t _ n => Some (ECol (qn t n))
+        end
+      else None
   | ULit v => Some (ELit v)
-  | UBin o a b => match sp_uexpr out a, sp_uexpr out b with Some x, Some y => Some (EBin o x y) | _, _ => None end
-  | UNot a => option_map ENot (sp_uexpr out a)
-  | UIsNull a => option_map EIsNull (sp_uexpr out a)
+  | UBin o a b => match sp_uexpr valid out a, sp_uexpr valid out b with
+                  | Some x, Some y => Some (EBin o x y) | _, _ => None end
+  | UNot a => option_map ENot (sp_uexpr valid out a)
+  | UIsNull a => option_map EIsNull (sp_uexpr valid out a)
   end.
 
-Definition sp_join (p : sp) (R : frame) (on : onform) (how : string) : option sp :=
+Definition sp_join (p : sp) (R : frame) (rbase : nat) (on : onform) (how : string) : option sp :=
   match spark_kind how with
   | None => None
   | Some k =>
       let j := List.length (p_tabs p) in
+      let tabs' := p_tabs p ++ [R] in
+      let bases' := p_bases p ++ [rbase] in
       let rout := map (fun n => (ECol (qn j n), n)) (cols R) in
       let k' := match k with JCross => JInner | _ => k end in
       let mk (kk : jkind) (cond : option expr) (out : list (expr * string)) :=
-        Some (mkSp (p_tabs p ++ [R]) (p_joins p ++ [(kk, cond)]) out (p_where p)) in
+        Some (mkSp tabs' bases' (p_joins p ++ [(kk, cond)]) out (p_where p)) in
       match on with
       | OnNone =>
           (* the kind asked for, condition TRUE; an inner join without condition is the product *)
           let kk := match k with JInner => JCross | _ => k end in
           mk kk None (if is_semi_anti k then p_out p else p_out p ++ rout)
       | OnExprs es =>
-          match map_opt (sp_uexpr (p_out p ++ rout)) es with
+          match map_opt (sp_uexpr (ref_valid tabs' bases' (p_out p ++ rout)) (p_out p ++ rout)) es with
           | Some es' => mk k' (conj_left es') (if is_semi_anti k' then p_out p else p_out p ++ rout)
           | None => None
           end
       | OnNames ks =>
           match map_opt (fun key => match named key (p_out p), count_str key (cols R) with
-                                    | [it], 1%nat => Some (fst it, key)
+                                    | it :: _, 1%nat => Some (fst it, key)
                                     | _, _ => None
                                     end) ks with
           | None => None
@@ -316,34 +350,34 @@ Definition sp_join (p : sp) (R : frame) (on : onform) (how : string) : option sp
                                             | JFull => (ECoalesce (fst q) (ECol (qn j (snd q))), snd q)
                                             | _ => (fst q, snd q)
                                             end) pairs in
-              let nonkey := filter (fun it : expr * string => negb (smem (snd it) ks)) in
               mk k' (conj_left (map (fun q => EBin Eq (fst q) (ECol (qn j (snd q)))) pairs))
-                 (keyitems ++ nonkey (p_out p) ++ (if is_semi_anti k' then [] else nonkey rout))
+                 (keyitems ++ drop_keys ks (p_out p) ++ (if is_semi_anti k' then [] else drop_keys ks rout))
           end
       end
   end.
 
 Definition sp_where (p : sp) (e : uexpr) : option sp :=
-  match sp_uexpr (p_out p) e with
-  | Some e' => Some (mkSp (p_tabs p) (p_joins p) (p_out p) (p_where p ++ [e']))
+  match sp_uexpr (ref_valid (p_tabs p) (p_bases p) (p_out p)) (p_out p) e with
+  | Some e' => Some (mkSp (p_tabs p) (p_bases p) (p_joins p) (p_out p) (p_where p ++ [e']))
   | None => None
   end.
 
 Definition sp_select (p : sp) (items : list (uexpr * string)) : option sp :=
-  match map_opt (fun it => option_map (fun e' => (e', snd it)) (sp_uexpr (p_out p) (fst it))) items with
-  | Some out => Some (mkSp (p_tabs p) (p_joins p) out (p_where p))
+  match map_opt (fun it => option_map (fun e' => (e', snd it))
+                                      (sp_uexpr (ref_valid (p_tabs p) (p_bases p) (p_out p)) (p_out p) (fst it))) items with
+  | Some out => Some (mkSp (p_tabs p) (p_bases p) (p_joins p) out (p_where p))
   | None => None
   end.
 
 (** ** programs: a chain of joins, then optionally a where or a select *)
 Record jstep := mkStep {
-  j_right : frame; j_octes : list cmeta; j_on : onform; j_how : string; j_same_branch : bool }.
+  j_right : frame; j_base : nat; j_octes : list cmeta; j_on : onform; j_how : string; j_same_branch : bool }.
 Inductive fin := FNone | FWhere (e : uexpr) | FSelect (items : list (uexpr * string)).
 
 Fixpoint m_chain (c : howcfg) (s : st) (steps : list jstep) : option st :=
   match steps with
   | [] => Some s
-  | x :: r => match m_join c s (j_right x) (j_octes x) (j_on x) (j_how x) (j_same_branch x) with
+  | x :: r => match m_join c s (j_right x) (j_base x) (j_octes x) (j_on x) (j_how x) (j_same_branch x) with
               | Some s' => m_chain c s' r
               | None => None
               end
@@ -351,7 +385,7 @@ Fixpoint m_chain (c : howcfg) (s : st) (steps : list jstep) : option st :=
 Fixpoint sp_chain (p : sp) (steps : list jstep) : option sp :=
   match steps with
   | [] => Some p
-  | x :: r => match sp_join p (j_right x) (j_on x) (j_how x) with
+  | x :: r => match sp_join p (j_right x) (j_base x) (j_on x) (j_how x) with
               | Some p' => sp_chain p' r
               | None => None
               end
@@ -362,17 +396,17 @@ Definition m_fin (s : st) (f : fin) : option st :=
 Definition sp_fin (p : sp) (f : fin) : option sp :=
   match f with FNone => Some p | FWhere e => sp_where p e | FSelect its => sp_select p its end.
 
-Definition m_run (c : howcfg) (L : frame) (lctes : list cmeta) (steps : list jstep) (f : fin) : option frame :=
-  match m_chain c (init_st L lctes) steps with
+Definition m_run (c : howcfg) (L : frame) (lbase : nat) (lctes : list cmeta) (steps : list jstep) (f : fin) : option frame :=
+  match m_chain c (init_st L lbase lctes) steps with
   | Some s => match m_fin s f with Some s' => eval_st s' | None => None end
   | None => None
   end.
-Definition sp_run (L : frame) (steps : list jstep) (f : fin) : option frame :=
-  match sp_chain (init_sp L) steps with
+Definition sp_run (L : frame) (lbase : nat) (steps : list jstep) (f : fin) : option frame :=
+  match sp_chain (init_sp L lbase) steps with
   | Some p => match sp_fin p f with Some p' => eval_sp p' | None => None end
   | None => None
   end.
 
-Definition sp_of (s : st) : sp := mkSp (s_tabs s) (s_joins s) (s_sel s) (s_where s).
+Definition sp_of (s : st) : sp := mkSp (s_tabs s) (s_bases s) (s_joins s) (s_sel s) (s_where s).
 Lemma eval_sp_of s : eval_sp (sp_of s) = eval_st s.
 Proof. reflexivity. Qed.
